@@ -130,6 +130,9 @@ func (b *Body) bindResults(env *CEnv, sig *types.Signature, res []*Val) {
 		}
 		if isErrorType(r.Type) && i == len(res)-1 {
 			env.vars["err"] = cv
+			if len(res) == 1 {
+				env.vars["result"] = cv
+			}
 		} else if i == 0 {
 			env.vars["result"] = cv
 		}
@@ -143,7 +146,7 @@ func isErrorType(t types.Type) bool {
 
 func (b *Body) callSiteClauses(key string, c *ssa.CallCommon, sig *types.Signature, args []*Val, reach *T, st State, pos token.Pos) {
 	ft := b.ft
-	if ft.con == nil || ft.collect {
+	if ft.con == nil {
 		return
 	}
 	for _, cl := range ft.con.Calls {
@@ -211,7 +214,32 @@ func (b *Body) applyContract(v ssa.Value, con *FnContract, key string, sig *type
 	}
 	// frame: havoc what the callee may modify
 	mods := ft.e.modSet(key, con)
+	names := formalNames(con, sig, c.IsInvoke())
 	for _, m := range mods {
+		if strings.HasPrefix(m, "*") || strings.HasPrefix(m, "[]") {
+			// the cell a pointer argument designates / the contents of a slice argument
+			pn := strings.TrimPrefix(strings.TrimPrefix(m, "*"), "[]")
+			found := false
+			for i, n := range names {
+				if n == pn && i < len(args) {
+					found = true
+					ad := ft.addrOf(args[i])
+					if ad == nil {
+						ft.abstraction("modifies " + m + ": argument has no tracked address")
+						break
+					}
+					sort := ad.RootSort
+					if len(ad.Path) > 0 {
+						sort = ad.Path[len(ad.Path)-1].Sort
+					}
+					b.store(st, ad, ft.fresh("mod."+pn, sort), blk)
+				}
+			}
+			if !found {
+				ft.shapeFail(&Clause{Kind: "modifies", Src: m, File: con.File, Line: con.Line}, fmt.Errorf("no parameter %q of %s", pn, key))
+			}
+			continue
+		}
 		b.havocForCall(m, args, blk, st)
 	}
 	// results
@@ -228,6 +256,13 @@ func (b *Body) applyContract(v ssa.Value, con *FnContract, key string, sig *type
 	for _, e := range append(append([]*Clause{}, con.Ensures...), con.Assumes...) {
 		g, err := post.EvalBool(e.Expr)
 		if err != nil {
+			// a postcondition that speaks about locals of the callee is only
+			// meaningful (and only checked) inside the callee's body
+			if strings.Contains(err.Error(), "unknown identifier") && !con.Trusted && !con.NoBody {
+				if fnb := ft.e.fnByKey[key]; fnb != nil && fnb.Blocks != nil {
+					continue
+				}
+			}
 			ft.shapeFail(e, fmt.Errorf("at call to %s: %v", key, err))
 			continue
 		}
